@@ -115,6 +115,8 @@ def root_of(ds):
 
 def ref_all_point(p):
   """All member DNAs of a finite decision point (any order)."""
+  if p['t'] == 'u' and p.get('hook'):
+    return [[x, []] for x in p['hook']]    # a custom point whose hook enumerates these strings
   assert p['t'] == 'c', 'finite specs only'
   n, k = len(p['cands']), p['k']
   subs = [[kids_l(list(ds)) for ds in ref_all_elems(c)] for c in p['cands']]
